@@ -46,6 +46,18 @@ class FalsyVal(Val):
         return 0
 
 
+class FalsyResult(tuple):
+    """What a FalsyFactory produces: an adapter / subscriber that is false in a boolean context (an empty sized adapter), not None."""
+
+    def __bool__(self):
+        return False
+
+
+class FalsyFactory(Val):
+    def __call__(self, *objs):
+        return FalsyResult(('made-by', self.tag) + tuple(objs))
+
+
 class RegUniverse:
     """Fresh interfaces, classes, objects and registries for one path."""
 
@@ -99,10 +111,11 @@ class RegUniverse:
     def lookup_names(self):
         return ['R0', 'R1', 'R2', 'R3', 'impl(K0)', 'impl(K1)', 'provided(K0()+R2)', 'impl(KU)']
 
-    def val(self, tag, eqid=None, none_factory=False, falsy=False):
-        key = (tag, eqid, none_factory, falsy)
+    def val(self, tag, eqid=None, none_factory=False, falsy=False, falsy_factory=False):
+        key = (tag, eqid, none_factory, falsy, falsy_factory)
         if key not in self.vals:
-            self.vals[key] = (NoneFactory if none_factory else (FalsyVal if falsy else Val))(tag, eqid)
+            cls = NoneFactory if none_factory else (FalsyVal if falsy else (FalsyFactory if falsy_factory else Val))
+            self.vals[key] = cls(tag, eqid)
         return self.vals[key]
 
     def set_bases(self, i, bases):
